@@ -1,0 +1,79 @@
+//go:build verif
+// +build verif
+
+package limiter
+
+import (
+	"sync"
+	"time"
+
+	proxyv1alpha1 "github.com/kubewharf/kubegateway/pkg/apis/proxy/v1alpha1"
+	gatewayclientset "github.com/kubewharf/kubegateway/pkg/client/kubernetes"
+	"github.com/kubewharf/kubegateway/pkg/ratelimiter/limiter/controller"
+	"github.com/kubewharf/kubegateway/pkg/ratelimiter/limiter/elector"
+	"github.com/kubewharf/kubegateway/pkg/ratelimiter/options"
+	_interface "github.com/kubewharf/kubegateway/pkg/ratelimiter/store/interface"
+)
+
+// Verification hooks (build tag "verif"): thin exports only, no behaviour.
+
+// VerifCalculateNextQuota exports calculateNextQuota.
+func VerifCalculateNextQuota(
+	upstreamTotal proxyv1alpha1.RateLimitItemConfiguration,
+	upstreamUsed proxyv1alpha1.RateLimitItemStatus,
+	flowControlConfig proxyv1alpha1.RateLimitItemConfiguration,
+	flowControlStatus proxyv1alpha1.RateLimitItemStatus,
+	clientCount int,
+	condition *proxyv1alpha1.RateLimitCondition,
+) proxyv1alpha1.RateLimitItemConfiguration {
+	return calculateNextQuota(upstreamTotal, upstreamUsed, flowControlConfig, flowControlStatus, clientCount, condition)
+}
+
+// VerifLimiter gives a harness step-by-step access to a rateLimiter whose
+// elector and upstream controller are supplied by the harness.
+type VerifLimiter struct {
+	*rateLimiter
+}
+
+// VerifNewRateLimiter assembles a rateLimiter like NewRateLimiter does, but with
+// the given elector and upstream controller and without starting anything.
+func VerifNewRateLimiter(gatewayClient gatewayclientset.Interface, limitOptions options.RateLimitOptions,
+	leaderElector elector.LeaderElector, upstreamController controller.UpstreamController) *VerifLimiter {
+	l := &rateLimiter{
+		runId:              "verif",
+		identity:           limitOptions.Identity,
+		shardCount:         limitOptions.ShardingCount,
+		limitOptions:       limitOptions,
+		gatewayClient:      gatewayClient,
+		leaderElector:      leaderElector,
+		clientCache:        NewClientCache(),
+		limitStoreMap:      map[int]_interface.LimitStore{},
+		upstreamLock:       map[string]*sync.Mutex{},
+		upstreamController: upstreamController,
+	}
+	leaderElector.SetCallbacks(elector.LeaderCallbacks{
+		OnStartedLeading: l.startLeading,
+		OnStoppedLeading: l.stopLeading,
+	})
+	return &VerifLimiter{l}
+}
+
+func (v *VerifLimiter) VerifLeaderCheck()              { v.leaderCheck() }
+func (v *VerifLimiter) VerifCleanupTimeoutClients()    { v.cleanupTimeoutClient() }
+func (v *VerifLimiter) VerifCleanupUnknownConditions() { v.cleanupUnknownCondition() }
+
+// VerifSetLastHeartbeat overwrites the recorded heartbeat time of an instance.
+func (v *VerifLimiter) VerifSetLastHeartbeat(instance string, t time.Time) {
+	v.clientCache.clientHeartbeats.Store(instance, t)
+}
+
+// VerifClients returns the recorded heartbeat times.
+func (v *VerifLimiter) VerifClients() map[string]time.Time {
+	m, _ := v.clientCache.AllClients()
+	return m
+}
+
+// VerifStore returns the store of a shard (nil when the shard is not led).
+func (v *VerifLimiter) VerifStore(shard int) _interface.LimitStore {
+	return v.getLimitStoreForShard(shard)
+}
